@@ -559,6 +559,8 @@ def discrete_SIR(G, test_transmission=_simple_test_transmission_, args=(), test_
     '''
     if rho is not None and initial_infecteds is not None:
         raise EoN.EoNError("cannot define both initial_infecteds and rho")
+    if rho is not None and initial_recovereds is not None:
+        raise EoN.EoNError("cannot define both initial_recovereds and rho")
 
     
     
@@ -3140,6 +3142,8 @@ def Gillespie_SIR(G, tau, gamma, initial_infecteds=None,
 
     if rho is not None and initial_infecteds is not None:
         raise EoN.EoNError("cannot define both initial_infecteds and rho")
+    if rho is not None and initial_recovereds is not None:
+        raise EoN.EoNError("cannot define both initial_recovereds and rho")
 
     
     if return_full_data:
